@@ -305,6 +305,8 @@ class Normaliser:
     def run(self):
         self.n1_module_constants()
         self.n1b_class_constants()
+        self.n25_flag_comparisons()
+        self.n26_canonical_spellings()
         self.n22_function_values()
         self.n9_literal_reflection()
         self.n11_split_tuple_assign()
@@ -420,6 +422,148 @@ class Normaliser:
             for n in ast.walk(tree):
                 if isinstance(n, (ast.If, ast.While, ast.IfExp, ast.Assert)):
                     n.test = strip(n.test)
+
+    # ---- N25
+    def n25_flag_comparisons(self):
+        """`X == True`, `X is True`, `X != False` -> `X`;  `X == False`, `X is False`, `X != True` -> `not X`, for X = self.<flag> where <flag> is a boolean
+        flag: every assignment to `.flag` in the package has a bool constant, a comparison / boolean expression, or a parameter whose default is a bool
+        constant on its right-hand side.  (One spelling per test, so that the same decision made twice on a path is recognised as the same decision.)"""
+        values: Dict[str, list] = {}
+        for tree in self.trees.values():
+            for fn in fn_nodes(tree):
+                defaults = {}
+                pos = fn.args.args
+                for a, d in zip(pos[len(pos) - len(fn.args.defaults):], fn.args.defaults):
+                    defaults[a.arg] = d
+                for a, d in zip(fn.args.kwonlyargs, fn.args.kw_defaults):
+                    if d is not None:
+                        defaults[a.arg] = d
+                for n in ast.walk(fn):
+                    if isinstance(n, ast.Assign):
+                        for t in n.targets:
+                            if isinstance(t, ast.Attribute):
+                                v = n.value
+                                if isinstance(v, ast.Name) and v.id in defaults:
+                                    v = defaults[v.id]
+                                values.setdefault(t.attr, []).append(v)
+                    elif isinstance(n, (ast.AugAssign, ast.AnnAssign)) and isinstance(n.target, ast.Attribute):
+                        values.setdefault(n.target.attr, []).append(None)
+
+        def boolish(v):
+            return v is not None and ((isinstance(v, ast.Constant) and isinstance(v.value, bool)) or isinstance(v, (ast.Compare, ast.BoolOp))
+                                      or (isinstance(v, ast.UnaryOp) and isinstance(v.op, ast.Not)))
+        flags = {a for a, vs in values.items() if vs and all(boolish(v) for v in vs)}
+
+        def is_flag(e):
+            return isinstance(e, ast.Attribute) and e.attr in flags and chain_attrs(e) is not None
+
+        nz = self
+
+        class T(ast.NodeTransformer):
+            def visit_Compare(self, node):
+                self.generic_visit(node)
+                if len(node.ops) != 1:
+                    return node
+                op, l, r_ = node.ops[0], node.left, node.comparators[0]
+                for x, c in ((l, r_), (r_, l)):
+                    if is_flag(x) and isinstance(c, ast.Constant) and isinstance(c.value, bool) and isinstance(op, (ast.Eq, ast.NotEq, ast.Is, ast.IsNot)):
+                        positive = c.value == isinstance(op, (ast.Eq, ast.Is))
+                        nz.note('N25', f'flag comparison `{ast.unparse(node)}`')
+                        return x if positive else ast.copy_location(ast.UnaryOp(op=ast.Not(), operand=x), node)
+                return node
+        for tree in self.trees.values():
+            T().visit(tree)
+
+    # ---- N26 / N27 / N28: one spelling per test / update
+    def n26_canonical_spellings(self):
+        """N26  in test position: `len(E) > 0`, `len(E) != 0`, `len(E) >= 1` -> `E`;  `len(E) == 0`, `len(E) < 1` -> `not E`   (E a self attribute chain)
+           N27  ordering comparisons: a constant operand goes to the right (`0 < x` -> `x > 0`), a plain local name compared with a call / attribute goes to the left
+                (`len(q) > idx` -> `idx < len(q)`); only when both operands are free of effects (names, attributes, constants, len(...))
+           N28  `T = T + e` / `T = T - e` -> `T += e` / `T -= e` for a name / attribute / constant-key subscript target and a numeric right operand
+                (never for list-valued targets: `L = L + [x]` re-binds, `L += [x]` mutates)"""
+        nz = self
+        ROLE_LISTS = {'items', 'ready_items', 'reservations_put', 'reservations_get', 'reserve_put_queue', 'reserve_get_queue', 'reserved_events', 'reserved_items'}
+
+        def pure(e):
+            for x in ast.walk(e):
+                if isinstance(x, ast.Call) and not (isinstance(x.func, ast.Name) and x.func.id == 'len'):
+                    return False
+                if isinstance(x, (ast.Yield, ast.YieldFrom, ast.Await, ast.NamedExpr, ast.Lambda)):
+                    return False
+            return True
+
+        def len_arg(e):
+            if isinstance(e, ast.Call) and isinstance(e.func, ast.Name) and e.func.id == 'len' and len(e.args) == 1 and not e.keywords \
+                    and isinstance(e.args[0], ast.Attribute) and chain_attrs(e.args[0]) is not None:
+                return e.args[0]
+            return None
+
+        def canon_test(e):
+            if isinstance(e, ast.BoolOp):
+                e.values = [canon_test(v) for v in e.values]
+                return e
+            if isinstance(e, ast.UnaryOp) and isinstance(e.op, ast.Not):
+                e.operand = canon_test(e.operand)
+                return e
+            if isinstance(e, ast.Compare) and len(e.ops) == 1:
+                op, l, r_ = e.ops[0], e.left, e.comparators[0]
+                la, ra = len_arg(l), len_arg(r_)
+                k = r_.value if isinstance(r_, ast.Constant) and isinstance(r_.value, int) and not isinstance(r_.value, bool) else None
+                if la is not None and k is not None:
+                    truthy = (isinstance(op, (ast.Gt, ast.NotEq)) and k == 0) or (isinstance(op, ast.GtE) and k == 1)
+                    falsy = (isinstance(op, ast.Eq) and k == 0) or (isinstance(op, ast.Lt) and k == 1) or (isinstance(op, ast.LtE) and k == 0)
+                    if truthy:
+                        nz.note('N26', f'`{ast.unparse(e)}` -> truth of the list')
+                        return la
+                    if falsy:
+                        nz.note('N26', f'`{ast.unparse(e)}` -> not <list>')
+                        return ast.copy_location(ast.UnaryOp(op=ast.Not(), operand=la), e)
+            return e
+
+        FLIP = {ast.Lt: ast.Gt, ast.Gt: ast.Lt, ast.LtE: ast.GtE, ast.GtE: ast.LtE}
+
+        class Cmp(ast.NodeTransformer):
+            def visit_Compare(self, node):
+                self.generic_visit(node)
+                if len(node.ops) != 1 or type(node.ops[0]) not in FLIP:
+                    return node
+                l, r_ = node.left, node.comparators[0]
+                if not (pure(l) and pure(r_)):
+                    return node
+                flip = False
+                if isinstance(l, ast.Constant) and not isinstance(r_, ast.Constant):
+                    flip = True
+                elif isinstance(r_, ast.Name) and isinstance(l, (ast.Call, ast.Attribute)) and not isinstance(l, ast.Constant):
+                    flip = True
+                if flip:
+                    nz.note('N27', f'`{ast.unparse(node)}` operands ordered')
+                    return ast.copy_location(ast.Compare(left=r_, ops=[FLIP[type(node.ops[0])]()], comparators=[l]), node)
+                return node
+
+        def simple_target(t):
+            if isinstance(t, ast.Name):
+                return True
+            if isinstance(t, ast.Attribute):
+                return pure(t) and t.attr not in ROLE_LISTS
+            if isinstance(t, ast.Subscript):
+                return pure(t.value) and isinstance(t.slice, ast.Constant)
+            return False
+
+        class Aug(ast.NodeTransformer):
+            def visit_Assign(self, node):
+                if len(node.targets) == 1 and simple_target(node.targets[0]) and isinstance(node.value, ast.BinOp) and isinstance(node.value.op, (ast.Add, ast.Sub)) \
+                        and ast.unparse(node.value.left) == ast.unparse(node.targets[0]) and pure(node.value.right) \
+                        and not isinstance(node.value.right, (ast.List, ast.Tuple, ast.ListComp, ast.Set, ast.Dict, ast.JoinedStr)) \
+                        and not (isinstance(node.value.right, ast.Constant) and isinstance(node.value.right.value, str)):
+                    nz.note('N28', f'`{ast.unparse(node)[:60]}` -> augmented assignment')
+                    return ast.copy_location(ast.AugAssign(target=node.targets[0], op=node.value.op, value=node.value.right), node)
+                return node
+        for tree in self.trees.values():
+            for n in ast.walk(tree):
+                if isinstance(n, (ast.If, ast.While, ast.IfExp, ast.Assert)):
+                    n.test = canon_test(n.test)
+            Cmp().visit(tree)
+            Aug().visit(tree)
 
     # ---- N2
     def n2_stable_aliases(self):
